@@ -7,6 +7,7 @@ package textractspecial
 //@ property C15 C07
 
 //@ pure func tableok(t []bool) bool := t == nil || len(t) == 256
+//@ global len(patternUnescaper.escapableCharMap) == 256
 
 //@ func matchValidCharsFromStart(s string, validChars []bool) int
 //@   requires len(validChars) == 256
@@ -54,3 +55,42 @@ package textractspecial
 //@        && len(rightBoundary) <= len(text) && occ(text, len(text) - len(rightBoundary), rightBoundary) && len(text) - len(rightBoundary) > maxRange
 //@        ==> !occ(text[len(text) - len(rightBoundary) - maxRange : len(text) - len(rightBoundary)], 0, leftBoundary)
 //@   ensures[label-trimmed] len(result.0) > 0 ==> result.0[0] > 32 && result.0[len(result.0)-1] > 32
+
+// ---- the extractor object ---------------------------------------------------------------------------------------------------
+// representation invariant: what extractLabelAtStart / extractLabelAtEnd need ("at least one of rightBoundary or
+// validChars should be present" for head extraction, mirrored for tail extraction)
+//@ pure func validextractor(ex stringExtractor) bool :=
+//@     (ex.position == extractFromStart || ex.position == extractFromEnd) && tableok(ex.validChars) && ex.maxRange >= 0
+//@  && (ex.position == extractFromStart ==> len(ex.rightBound) > 0 || ex.validChars != nil)
+//@  && (ex.position == extractFromEnd ==> len(ex.leftBound) > 0 || ex.validChars != nil)
+
+//@ func newStringExtractor(position stringExtractorPosition, patternParts []string, maxRange int) (stringExtractor, error)
+//@   property C16 C15
+//@   requires (position == extractFromStart || position == extractFromEnd) && maxRange >= 0
+//@   modifies mem(byte), mem(bool)
+//@   ensures[accepted-extractors-are-usable] result.1 == nil ==> validextractor(result.0)
+
+//@ func (ex *stringExtractor) Extract(text string) (string, string)
+//@   requires ex != nil && validextractor(*ex)
+//@   ensures  arr(result.1) === arr(text) && len(result.1) <= len(text)
+//@   ensures[failure-leaves-text] len(result.1) == len(text) ==> result.1 === text
+
+// the extracted label is stored and the source shortened only when extraction succeeded; other fields untouched
+//@ func (tf *extractSpecialTransform) Transform(record *base.LogRecord) base.FilterResult
+//@   requires tf != nil && record != nil && validextractor(tf.extractor) && 0 <= tf.srcLocator && tf.srcLocator < len(record.Fields) && 0 <= tf.destLocator && tf.destLocator < len(record.Fields)
+//@   modifies record.Fields[tf.srcLocator], record.Fields[tf.destLocator]
+//@   ensures  result == base.PASS
+//@   ensures[fields-set-only-on-success] len(record.Fields[tf.srcLocator]) == len(old(record.Fields[tf.srcLocator])) || tf.srcLocator == tf.destLocator
+//@        ==> record.Fields[tf.destLocator] === old(record.Fields[tf.destLocator]) || tf.srcLocator == tf.destLocator
+
+// every loop terminates (a character range ending at byte 0xFF must not wrap the byte loop variable)
+//@ func fillValidCharsByRangeExpression(table []bool, expression string) error
+//@   property C16 C15 C07
+//@   flag noframe
+//@   requires len(table) == 256 && (len(expression) == 0 || len(expression) >= 2)
+//@   modifies table[:], mem(byte)
+//@   loop 1: decreases len(table) - i
+//@   loop 2: decreases len(table) - i#2
+//@   loop 3: invariant 0 <= i#3 && i#3 <= len(expr) && (rangeStarted ==> i#3 >= 2) && len(table) == 256
+//@   loop 3: decreases len(expr) - i#3
+//@   loop 4: decreases 256 - rc
